@@ -13,7 +13,7 @@ def main():
     for i in range(first, first + count):
         rng = random.Random('%s/%d/%d' % (family, seed, i))
         g = getattr(gen, 'gen_' + family)
-        opts, program = g(rng, knobs)
+        opts, program = g(rng, dict(knobs, _i=i))
         r = prog.run_program(opts, program, wall=10)
         r.update(tid=i, family=family, opts=opts, prog=program)
         res.append(r)
